@@ -30,6 +30,21 @@ fn go<T: Scalar, const D: usize>(h: &C19, out: &mut Outcome<T>) {
     let g = h.entry.ograph();
     let routing = routings(&g, 1).remove(0);
     let kin = sym_kin::<T>(&g, D, false);
+    // call history: a sampler with another degree of divergence is sampled at the same point first, so that
+    // a value carried over from it (instead of being computed from this sampler's dod) shows up below
+    let mut skip_events = 0;
+    let mut skip_consts = 0;
+    if let Some(pe) = crate::catalogue::partner(&h.entry, D) {
+        let pg = pe.ograph();
+        let pr = routings(&pg, 1).remove(0);
+        let pkin = rat_kin::<T>(&pg, D);
+        // at a fixed rational point whose Gamma coordinate is the same placeholder value, so no new decisions
+        let pdim = build::<D>(&pe, &pr.sig).get_dimension();
+        let px: Vec<T> = (0..pdim).map(|k| T::rat(31 + (k * 7919 % 89) as i64, 181)).collect();
+        let _ = run_with_x::<T, D>(&pe, &pr, &pkin, &settings(false, false, None), &px);
+        skip_events = T::narrow_log().len();
+        skip_consts = T::from_f64_consts().len();
+    }
     let run = run_sample::<T, D>(&h.entry, &routing, &kin, &settings(false, true, None), None, out);
     if !T::SYMBOLIC {
         return;
@@ -37,8 +52,8 @@ fn go<T: Scalar, const D: usize>(h: &C19, out: &mut Outcome<T>) {
     let ne = g.ne();
     let lam_coord = format!("x{}", 2 * ne - 2);
     // 1. narrowing events
-    let events = T::narrow_log();
-    let tolog = T::to_f64_log();
+    let events: Vec<_> = T::narrow_log().into_iter().skip(skip_events).collect();
+    let tolog: Vec<T> = T::to_f64_log().into_iter().skip(skip_events).collect();
     match &run.res {
         Ok(_) => {
             if events.len() != 1 {
@@ -70,7 +85,7 @@ fn go<T: Scalar, const D: usize>(h: &C19, out: &mut Outcome<T>) {
     let l = g.num_loops();
     allowed.extend([5.0, D as f64 / 2.0, -(D as f64 / 2.0), D as f64 / 2.0 * l as f64 + dod, dod]);
     let allowed_bits: Vec<u64> = allowed.iter().map(|f| f.to_bits()).collect();
-    for c in T::from_f64_consts() {
+    for c in T::from_f64_consts().into_iter().skip(skip_consts) {
         if !allowed_bits.contains(&c) {
             out.structural.push(format!("from_f64({:e}) is not a table constant, D/2, D/2*L+dod or 5.0", f64::from_bits(c)));
         }
